@@ -75,6 +75,11 @@ fn form_metric_filename(service_name: &str, with_pid: bool) -> String {
     filename
 }
 
+#[cfg(flea1lt_sentinel_rust_verif)]
+pub fn verif_metric_filename(service_name: &str, with_pid: bool) -> String {
+    form_metric_filename(service_name, with_pid)
+}
+
 // Generate the metric index filename from the metric log filename.
 fn form_metric_idx_filename(metric_filename: &str) -> String {
     format!("{}{}", metric_filename, METRIC_IDX_SUFFIX)
